@@ -65,12 +65,21 @@ func (sess *UserSession) Copy(numSet imap.NumSet, destName string) (*imap.CopyDa
 		}
 	}
 
-	var sourceUIDs, destUIDs imap.UIDSet
+	// Never hold the locks of two mailboxes at the same time: two sessions
+	// copying in opposite directions would wait for each other forever. Take
+	// a snapshot of the messages while holding the source mailbox lock, then
+	// append them to the destination.
+	var msgs []*message
 	sess.mailbox.forEach(numSet, func(seqNum uint32, msg *message) {
+		msgs = append(msgs, msg.snapshot())
+	})
+
+	var sourceUIDs, destUIDs imap.UIDSet
+	for _, msg := range msgs {
 		appendData := dest.copyMsg(msg)
 		sourceUIDs.AddNum(msg.uid)
 		destUIDs.AddNum(appendData.UID)
-	})
+	}
 
 	return &imap.CopyData{
 		UIDValidity: dest.uidValidity,
@@ -94,18 +103,24 @@ func (sess *UserSession) Move(w *imapserver.MoveWriter, numSet imap.NumSet, dest
 		}
 	}
 
-	sess.mailbox.mutex.Lock()
-	defer sess.mailbox.mutex.Unlock()
-
-	var sourceUIDs, destUIDs imap.UIDSet
+	// See Copy: the source and destination mailbox locks are never held at
+	// the same time
+	var msgs []*message
 	expunged := make(map[*message]struct{})
+	sess.mailbox.mutex.Lock()
 	sess.mailbox.forEachLocked(numSet, func(seqNum uint32, msg *message) {
-		appendData := dest.copyMsg(msg)
-		sourceUIDs.AddNum(msg.uid)
-		destUIDs.AddNum(appendData.UID)
+		msgs = append(msgs, msg.snapshot())
 		expunged[msg] = struct{}{}
 	})
 	sess.mailbox.expungeLocked(expunged)
+	sess.mailbox.mutex.Unlock()
+
+	var sourceUIDs, destUIDs imap.UIDSet
+	for _, msg := range msgs {
+		appendData := dest.copyMsg(msg)
+		sourceUIDs.AddNum(msg.uid)
+		destUIDs.AddNum(appendData.UID)
+	}
 
 	// The EXPUNGE responses are queued for all sessions, including this one,
 	// and are sent when the connection polls for updates before completing
